@@ -13,13 +13,13 @@
 //!        Z<k> block until the pipe of stream k has released its input stream and closure
 //!        Q<c> unpark caller c's thread (a stale wake-up token: park may always return spuriously)
 //!        V<e> block until event e   W wait until every started panic has finished unwinding   P<q> every scheduling attempt on q must panic
-//! Body:  t touch | w<e> await event (future bodies) | g<g> block on gate | p panic | s<e> fire event | (op) nested op
+//! Body:  t touch | w<e> await event (future bodies) | a<e>-<e2> await event e and fire e2 once the waker is registered | g<g> block on gate | p panic | s<e> fire event | (op) nested op
 
 #[derive(Clone, Debug, PartialEq)]
 pub enum Mode { Detach, Await, SyncWait, PollDrop(usize) }
 
 #[derive(Clone, Debug, PartialEq)]
-pub enum Prim { Touch, AwaitEv(usize), Gate(usize), Panic, Signal(usize), Nested(Box<Op>) }
+pub enum Prim { Touch, AwaitEv(usize), AwaitEvSig(usize, usize), Gate(usize), Panic, Signal(usize), Nested(Box<Op>) }
 
 #[derive(Clone, Debug, PartialEq)]
 pub enum Op {
@@ -70,6 +70,7 @@ fn fmt_body(b: &Vec<Prim>) -> String {
         match p {
             Prim::Touch => s.push('t'),
             Prim::AwaitEv(e) => s.push_str(&format!("w{}", e)),
+            Prim::AwaitEvSig(e, e2) => s.push_str(&format!("a{}-{}", e, e2)),
             Prim::Gate(g) => s.push_str(&format!("g{}", g)),
             Prim::Panic => s.push('p'),
             Prim::Signal(e) => s.push_str(&format!("s{}", e)),
@@ -164,6 +165,7 @@ fn parse_body(cs: &[char], i: &mut usize) -> Result<Vec<Prim>, String> {
             'p' => b.push(Prim::Panic),
             's' => b.push(Prim::Signal(parse_num(cs, i)?)),
             'w' => b.push(Prim::AwaitEv(parse_num(cs, i)?)),
+            'a' => { let e = parse_num(cs, i)?; expect_ch(cs, i, '-')?; b.push(Prim::AwaitEvSig(e, parse_num(cs, i)?)) }
             'g' => b.push(Prim::Gate(parse_num(cs, i)?)),
             '(' => { let o = parse_op(cs, i)?; if *i >= cs.len() || cs[*i] != ')' { return Err(") expected".into()); } *i += 1; b.push(Prim::Nested(Box::new(o))); }
             _ => return Err(format!("bad prim {}", c))
